@@ -178,6 +178,12 @@ type Store struct {
 	// Trusted: link systems made for this store have TrustedStorage set
 	Trusted bool
 
+	// Park: the FIRST read open of a block listed here waits until its channel is closed before it is served (a request
+	// that takes long: the block comes from far away). Waiting happens outside the store's lock.
+	Park map[cid.Cid]chan struct{}
+	// ParkedNow lists the requests that arrived and are (or were) held back
+	ParkedNow []cid.Cid
+
 	// Yield: every read open, write open and commit first gives up the processor (runtime.Gosched), as a store that
 	// blocks on I/O does: in checks that run several goroutines this opens the windows between a library call's steps
 	Yield bool
@@ -245,6 +251,18 @@ func (s *Store) openRead(lc linking.LinkContext, l datamodel.Link) (io.Reader, e
 	}
 	if s.Yield {
 		runtime.Gosched()
+	}
+	if s.Park != nil {
+		s.mu.Lock()
+		ch := s.Park[c]
+		delete(s.Park, c)
+		if ch != nil {
+			s.ParkedNow = append(s.ParkedNow, c)
+		}
+		s.mu.Unlock()
+		if ch != nil {
+			<-ch
+		}
 	}
 	s.mu.Lock()
 	defer s.mu.Unlock()
@@ -336,9 +354,11 @@ func (s *Store) openWrite(_ linking.LinkContext) (io.Writer, linking.BlockWriteC
 //	2: the reifiers are registered on a template link system without storage; the link system in use is a COPY of it whose
 //	   storage is set afterwards (KnownReifiers is shared with the template)
 //	3: AddUnixFSReificationToLinkSystem is called twice
+//	4: somebody else set a link system of their own up before and then replaced ITS named reifiers by pass-through ones
+//	   (what a caller who wants raw dag-pb from "unixfs" selectors does); ours is set up the common way afterwards
 func (s *Store) LinkSystem() *ipld.LinkSystem {
 	s.mu.Lock()
-	variant := s.lsCalls % 4
+	variant := s.lsCalls % 5
 	s.lsCalls++
 	s.mu.Unlock()
 	return s.LinkSystemVariant(variant)
@@ -396,6 +416,17 @@ func (p pieceWriter) Write(b []byte) (int, error) {
 func (s *Store) linkSystemVariant(variant int) *ipld.LinkSystem {
 	ls := cidlink.DefaultLinkSystem()
 	switch variant {
+	case 4:
+		other := cidlink.DefaultLinkSystem()
+		unixfsnode.AddUnixFSReificationToLinkSystem(&other)
+		passThrough := func(_ linking.LinkContext, n datamodel.Node, _ *linking.LinkSystem) (datamodel.Node, error) {
+			return n, nil
+		}
+		other.KnownReifiers["unixfs"] = passThrough
+		other.KnownReifiers["unixfs-preload"] = passThrough
+		ls.StorageReadOpener = s.openRead
+		ls.StorageWriteOpener = s.openWrite
+		unixfsnode.AddUnixFSReificationToLinkSystem(&ls)
 	case 1:
 		ls.KnownReifiers = map[string]linking.NodeReifier{
 			"verif-other-adl": func(_ linking.LinkContext, n datamodel.Node, _ *linking.LinkSystem) (datamodel.Node, error) {
